@@ -38,6 +38,7 @@ import GraphiqModel.Proofs.MetricsHistFuse
 import GraphiqModel.Proofs.MetricsHistCheck
 import GraphiqModel.Proofs.MetricsHistWires
 import GraphiqModel.Proofs.MetricsHistValidate
+import GraphiqModel.Proofs.MetricsHistNodeEdits
 namespace Graphiq.C12
 open Graphiq Graphiq.Dag Graphiq.Metrics Relation
 
@@ -757,6 +758,98 @@ theorem insert_at_output_edges_is_well_formed {c : Dag} (h : DagInv c) {op : Op}
 example : InsertOK (Dag.init 1 1 0) cnotE0P0 [⟨.inp ⟨.e, 0⟩, .out ⟨.e, 0⟩, ⟨.e, 0⟩⟩, ⟨.inp ⟨.p, 0⟩, .out ⟨.p, 0⟩, ⟨.p, 0⟩⟩] :=
   insert_at_input_edges_is_well_formed (init_dagInv 1 1 0) (by decide) rfl
     (by intro e he; simp at he; rcases he with rfl | rfl <;> exact ⟨_, rfl⟩)
+
+/-! ## 9b. the node-addressed edits as functions on the wires
+
+  For `add`, `insert_at`, `remove_op`, `replace_op` — on operations whose registers exist, so that the register prologue does
+  nothing — the wires after the edit are an explicit FUNCTION of the wires before and of `_node_id` (no existential): splice the
+  new node `_node_id + 1` in front of the output of every register of the operation (`add`) / between the two ends of every given
+  edge (`insert_at`), erase the node (`remove_op`), keep everything (`replace_op`).  Folding it over a history gives the wires after
+  the history as a closed-form function of the history — the node-level counterpart of `rewrite_history_on_wired_wires`. -/
+
+/-- the list edit of a node-addressed edit on the wires; second component: `_node_id` afterwards -/
+def wiresStep (P : Reg → List NodeId) (nid : Nat) : Edit → (Reg → List NodeId) × Nat
+  | .add op => (splicePaths (.op (nid + 1)) ((opRegs op).map (lastEdge P)) P, nid + 1)
+  | .insertAt _ es => (splicePaths (.op (nid + 1)) es P, nid + 1)
+  | .removeOp i => (erasePaths P (.op i), nid)
+  | _ => (P, nid)
+
+/-- well-formed node-addressed calls that add no register -/
+def NodeEditOK (c : Dag) : Edit → Prop
+  | .add op => OpWF op ∧ ∀ r ∈ opRegs op, c.live r
+  | .insertAt op es => OpWF op ∧ InsertOK c op es ∧ ∀ r ∈ opRegs op, c.live r
+  | .removeOp _ => True
+  | .replaceOp _ op => OpWF op
+  | _ => False
+
+def NodeHistOK (c : Dag) : List Edit → Prop
+  | [] => True
+  | e :: es => NodeEditOK c e ∧ NodeHistOK (apply c e).1 es
+
+def wiresRun (P : Reg → List NodeId) (nid : Nat) : List Edit → (Reg → List NodeId) × Nat
+  | [] => (P, nid)
+  | e :: es => wiresRun (wiresStep P nid e).1 (wiresStep P nid e).2 es
+
+/-- **one node-addressed edit = the list edit `wiresStep` on the wires** -/
+theorem node_edit_wires {c : Dag} {P : Reg → List NodeId} (g : Good c P) (e : Edit) (he : NodeEditOK c e) :
+    Good (apply c e).1 (wiresStep P c.nodeId e).1 ∧ (apply c e).1.nodeId = (wiresStep P c.nodeId e).2 := by
+  cases e with
+  | add op => obtain ⟨_, h2, h3⟩ := add_wires_fn g he.1 he.2; exact ⟨h2, h3⟩
+  | insertAt op es => obtain ⟨_, h2, h3⟩ := insertAt_wires_fn g he.1 he.2.1 he.2.2; exact ⟨h2, h3⟩
+  | removeOp i => exact removeOp_wires_fn g i
+  | replaceOp i op => exact replaceOp_wires_fn g i he
+  | unwrapNodes => exact absurd he id
+  | removeIdentity => exact absurd he id
+  | groupOneQubitGates => exact absurd he id
+  | addRegister t s => exact absurd he id
+
+/-- **any history of node-addressed edits: the wires are computed by the list edits** — `wiresRun` is a function of the wires at the
+    start, of `_node_id` and of the edits only -/
+theorem node_history_wires (es : List Edit) : ∀ {c : Dag} {P : Reg → List NodeId}, Good c P → NodeHistOK c es →
+    Good (run c es) (wiresRun P c.nodeId es).1 ∧ (run c es).nodeId = (wiresRun P c.nodeId es).2 := by
+  induction es with
+  | nil => intro c P g _; exact ⟨g, rfl⟩
+  | cons e rest ih =>
+    intro c P g hok
+    obtain ⟨g1, hid⟩ := node_edit_wires g e hok.1
+    have := ih g1 hok.2
+    rw [hid] at this
+    exact this
+
+/-- non-vacuity: on `CircuitDAG(2, 1, 1)` — `add CNOT e0→e1`, `add H p0`, `insert_at` a measurement before both outputs, `insert_at`
+    a phase gate before the CNOT, `remove_op 2` — and the wires computed by the list edits (kernel-evaluated): `e0: in, 4, 1, out`,
+    `e1: in, 1, 3, out`, `p0: in, 3, out` -/
+def nodeHist : List Edit :=
+  [.add ⟨.cnot, [⟨.e, 0⟩, ⟨.e, 1⟩], [], ["two-qubit"], []⟩, .add (Op.oneQubit .hadamard ⟨.p, 0⟩),
+   .insertAt ⟨.mcr, [⟨.e, 1⟩, ⟨.p, 0⟩], [0], ["two-qubit"], []⟩ [⟨.op 1, .out ⟨.e, 1⟩, ⟨.e, 1⟩⟩, ⟨.op 2, .out ⟨.p, 0⟩, ⟨.p, 0⟩⟩],
+   .insertAt (Op.oneQubit .phase ⟨.e, 0⟩) [⟨.inp ⟨.e, 0⟩, .op 1, ⟨.e, 0⟩⟩],
+   .removeOp 2]
+
+example : (wiresRun (fun r => [.inp r, .out r]) 0 nodeHist).2 = 4 ∧
+    (wiresRun (fun r => [.inp r, .out r]) 0 nodeHist).1 ⟨.e, 0⟩ = [.inp ⟨.e, 0⟩, .op 4, .op 1, .out ⟨.e, 0⟩] ∧
+    (wiresRun (fun r => [.inp r, .out r]) 0 nodeHist).1 ⟨.e, 1⟩ = [.inp ⟨.e, 1⟩, .op 1, .op 3, .out ⟨.e, 1⟩] ∧
+    (wiresRun (fun r => [.inp r, .out r]) 0 nodeHist).1 ⟨.p, 0⟩ = [.inp ⟨.p, 0⟩, .op 3, .out ⟨.p, 0⟩] ∧
+    (wiresRun (fun r => [.inp r, .out r]) 0 nodeHist).1 ⟨.c, 0⟩ = [.inp ⟨.c, 0⟩, .out ⟨.c, 0⟩] := by decide
+
+/-- … and the history satisfies the hypothesis of `node_history_wires` from `CircuitDAG(2, 1, 1)` -/
+example : NodeHistOK (Dag.init 2 1 1) nodeHist := by
+  have wfC : OpWF ⟨.cnot, [⟨.e, 0⟩, ⟨.e, 1⟩], [], ["two-qubit"], []⟩ :=
+    { not_input := by decide, not_output := by decide, qregs_ne := by decide, qregs_nodup := by decide,
+      cregs_nodup := by decide, qregs_quantum := by decide,
+      wrapper_shape := by intro h; exact absurd h (by decide), wrapper_key := by intro h; exact absurd h (by decide) }
+  have wfM : OpWF ⟨.mcr, [⟨.e, 1⟩, ⟨.p, 0⟩], [0], ["two-qubit"], []⟩ :=
+    { not_input := by decide, not_output := by decide, qregs_ne := by decide, qregs_nodup := by decide,
+      cregs_nodup := by decide, qregs_quantum := by decide,
+      wrapper_shape := by intro h; exact absurd h (by decide), wrapper_key := by intro h; exact absurd h (by decide) }
+  have wfH : OpWF (Op.oneQubit .hadamard ⟨.p, 0⟩) := oneQubit_wf rfl (by decide)
+  have wfP : OpWF (Op.oneQubit .phase ⟨.e, 0⟩) := oneQubit_wf rfl (by decide)
+  have h2 : DagInv (run (Dag.init 2 1 1) [.add ⟨.cnot, [⟨.e, 0⟩, ⟨.e, 1⟩], [], ["two-qubit"], []⟩, .add (Op.oneQubit .hadamard ⟨.p, 0⟩)]) :=
+    history_from_init 2 1 1 _ ⟨wfC, wfH, trivial⟩
+  refine ⟨⟨wfC, by decide⟩, ⟨wfH, by decide⟩, ⟨wfM, ?_, by decide⟩, ⟨wfP, ⟨by decide, rfl, ?_⟩, by decide⟩, trivial, trivial⟩
+  · exact insert_at_output_edges_is_well_formed h2 (by decide) rfl
+      (by intro e he; simp at he; rcases he with rfl | rfl <;> exact ⟨_, rfl⟩)
+  · intro e1 he1 e2 he2 hne
+    simp at he1 he2; subst he1 he2; exact absurd rfl hne
 
 /-! ## 10. `find_incompatible_edges`: exactly which edges are reported -/
 
